@@ -411,7 +411,7 @@ func report(prop, tier, repo, verif string, seed int, out *checkOutcome, partial
 			// the defect is still present: it must be listed
 			found := false
 			for _, k := range known.Findings {
-				if k.Property == prop && k.Function == r.Fn.Name && k.Region == r.O.Region {
+				if k.Property == prop && k.Function == r.Fn.Name && k.Region == r.O.Region && (k.Clause == "" || strings.HasSuffix(r.O.Name, ":"+k.Clause)) {
 					found = true
 					fmt.Printf("KNOWN-FINDING: property=%s %s\n", prop, k.What)
 				}
